@@ -4,3 +4,4 @@ pub mod layout;
 pub mod mutate;
 pub mod prog;
 pub mod source;
+pub mod tree;
